@@ -124,6 +124,38 @@ fn compositions(ctx: &Ctx, sink: &mut Sink) {
   }
 }
 
+/// every day of the boundary catalogue after AD 260 (all of 1582, century years, range ends, regime switches) at the two
+/// instants around the 23:00 roll and just after midnight: the day pillar must move with the civil calendar there too
+fn catalogue_rolls(sink: &mut Sink) {
+  use tyme4rs::tyme::solar::SolarDay;
+  use tyme4rs::tyme::Tyme as _;
+  for ((y, m, d), n) in crate::windows::catalogue(1) {
+    if y < 260 || y > 9998 {
+      continue;
+    }
+    let first = match catch(|| SolarDay::from_ymd(y as isize, m as usize, d as usize)) {
+      Some(x) => x,
+      None => continue,
+    };
+    for k in 0..n.min(420) {
+      let day = match catch(|| first.next(k as isize)) {
+        Some(x) => x,
+        None => break,
+      };
+      for (h, mi) in [(22i64, 59i64), (23, 0), (0, 30)] {
+        let t = match catch(|| SolarTime::from_ymd_hms(day.get_year(), day.get_month(), day.get_day(), h as usize, mi as usize, 0)) {
+          Some(t) => t,
+          None => continue,
+        };
+        let (yy, qj, qs, gi, lj, ls) = ec_fields(&t);
+        let a = catch_iso(|| ec4(&t.get_lunar_hour().get_eight_char())).unwrap_or(vec![-9; 4]);
+        let b = catch_iso(|| ec4(&t.get_sixty_cycle_hour().get_eight_char())).unwrap_or(vec![-9; 4]);
+        sink.put(Ev::new("ec").i("s", 0).i("y", yy).i("qj", qj).i("qs", qs).i("gi", gi).i("lj", lj).i("ls", ls).a("a", &a).a("b", &b).done());
+      }
+    }
+  }
+}
+
 fn searches(ctx: &Ctx, sink: &mut Sink) {
   let mut rng = ctx.rng(902);
   let n = if ctx.quick() { 1200 } else { 6000 };
@@ -157,6 +189,21 @@ fn searches(ctx: &Ctx, sink: &mut Sink) {
       2 => ((y - rng.range(0, 130)).max(1), (y + rng.range(0, 130)).min(9999)),
       _ => ((y - 1).max(1), (y + 1).min(9999)),
     };
+    // every fifth search asks for a chart NO instant has: the probe's chart with the hour stem (or the month stem) moved
+    // off the Five-Rats (Five-Tigers) rule; whatever the search returns must still carry the characters asked for
+    let legal = done % 5 != 4;
+    let ec = if legal {
+      ec
+    } else {
+      let p = ec4(&ec);
+      let sc = |i: i64| tyme4rs::tyme::sixtycycle::SixtyCycle::from_index(i as isize);
+      let shift = 12 * rng.range(1, 4); // same branch, another stem
+      if done % 10 == 4 {
+        EightChar::from_sixty_cycle(sc(p[0]), sc(p[1]), sc(p[2]), sc((p[3] + shift) % 60))
+      } else {
+        EightChar::from_sixty_cycle(sc(p[0]), sc((p[1] + shift) % 60), sc(p[2]), sc(p[3]))
+      }
+    };
     let res = catch_iso(|| ec.get_solar_times(y0 as isize, y1 as isize));
     let (qj, qs) = inst(&t);
     let mut rs: Vec<i64> = Vec::new();
@@ -168,7 +215,7 @@ fn searches(ctx: &Ctx, sink: &mut Sink) {
         re.extend(catch_iso(|| ec4(&r.get_lunar_hour().get_eight_char())).unwrap_or(vec![-9; 4]));
       }
     }
-    sink.put(Ev::new("sr").i("s", 0).i("y", y).i("qj", qj).i("qs", qs).i("y0", y0).i("y1", y1).a("ec", &ec4(&ec)).b("ok", res.is_some()).i("n", res.as_ref().map(|l| l.len() as i64).unwrap_or(-1)).a("rs", &rs).a("re", &re).done());
+    sink.put(Ev::new("sr").i("s", 0).i("y", y).i("qj", qj).i("qs", qs).i("y0", y0).i("y1", y1).a("ec", &ec4(&ec)).b("lg", legal).b("ok", res.is_some()).i("n", res.as_ref().map(|l| l.len() as i64).unwrap_or(-1)).a("rs", &rs).a("re", &re).done());
     done += 1;
   }
 }
@@ -178,6 +225,7 @@ pub fn run(ctx: &Ctx) -> usize {
   sink.segment();
   sink.put(Ev::new("begin").i("s", 1).done());
   cases(ctx, &mut sink);
+  catalogue_rolls(&mut sink);
   compositions(ctx, &mut sink);
   searches(ctx, &mut sink);
   sink.total
